@@ -60,7 +60,9 @@ def exhaustive(n, depth, tag, extra=()):
                     order.append(w[1])
             if order != sorted(order) or (order and order[0] != "1") or any(int(a) + 1 < int(b) for a, b in zip(order, order[1:])):
                 continue
-            yield Case(f"{tag}#{i}", "fq", materialise(list(seq) + DRAIN), [tag])
+            # drain: one poll per item that can still be queued (at least the usual four)
+            narr = sum(1 for x in seq if x.startswith("arrive"))
+            yield Case(f"{tag}#{i}", "fq", materialise(list(seq) + ["poll"] * max(4, narr + 1)), [tag])
             i += 1
 
 
